@@ -16,9 +16,10 @@ def run(ctx):
     ctx.suites_run.append("S-rel")
     rng = ctx.rng
     n = 3 if not ctx.thorough else 12
-    ctx.rule("all exported optimizers × {continuous, mixed, permutation (pairs that run today)} × integer seeds × configs (1..4 cycles): run A, then draw from numpy's and the stdlib generator, run B in the same process, "
+    ctx.rule("all exported optimizers × {continuous, mixed, permutation (pairs that run today)} × integer seeds × configs (1..4 cycles; plus every validator-accepted candidate value of every algorithm parameter once): run A, then draw from numpy's and the stdlib generator, run B in the same process, "
              "run C in another worker process with a different random history; A, B, C compared bit-for-bit on every position, cost, fitness and rate; a case = one triple; non-trivial = the runs return results with ≥ 2 generations")
     js = jobs.make_jobs(rng, optimizers.names(), ["cont-sym", "cont", "cont-zero", "mixed", "perm", "disc"], n, modes=("serial",), max_cycles_choices=(1, 2, 3, 4), trace_events=False)
+    js += jobs.param_sweep_jobs(rng, optimizers.names(), kinds=("cont-sym", "cont"), max_cycles=2)
     for j in js:
         j["perturb"] = rng.randrange(1, 1000)
         j["seed"] = rng.choice([0, 1, 42, 2 ** 31 - 1, rng.randrange(1, 2 ** 32 - 1)])
